@@ -2,7 +2,7 @@
 CONFIG = {
     "manifest": {
         "level_text": "Coq theorems, closed under the global context, over an exact rational model that mirrors Polygon/Label::bounding_box, Reference::repeat_and_transform / bounding_box / convex_hull, Cell::bounding_box(cache) / convex_hull(cache) with the GeometryInfo cache, and the gdstk::convex_hull wrapper statement by statement (tree after the fixes cd7171e and d7329ad). Proved for ALL inputs: bbox is the smallest box (inverted iff empty); element boxes with any repetition given the C11 facts; the quarter-turn branch (four corners) is exact when cos*sin = 0 and never under-reports for any cos/sin; the hull branch is exact for every affine placement given a hull meeting the contract; the wrapper meets the contract on EVERY input (fewer than 4 points, qhull error branch, collinear fallback with the two extreme input points) given qhull's contract on the inputs it really receives; hence, by induction over any acyclic hierarchy with unique names, Cell::bounding_box is the smallest box of the flattened geometry and Cell/Reference::convex_hull has only geometry points as corners and contains all geometry, for ANY valid cache, and any interleaving of cached cell/reference box/hull queries answers like a fresh cache (cache_transparent). Regression examples: the old collinear fallback and the old extrema-only hull path are refuted on the F10/F9 witnesses. The model is tied to /repo on every run by the extracted model evaluated on the same hierarchies and query scripts as the real library, plus an oracle from the library's own flattening.",
-        "level_note": "Assumed as Section hypothesis: qhull's contract (corners are input points, every input is a convex combination of the corners) on non-degenerate inputs — validated on every hull the library returns in each run (harness oracle), with an exact monotone-chain hull standing in for qhull in the model run. Premises of the hierarchy theorems: unique cell names, the C11 facts for every repetition (extrema are offsets, same box, origin is an offset), quarter flag => cos*sin = 0, and for reference repetitions that are not Explicit that the extrema cover the offsets - all of these are discharged from C11's model of get_offsets / get_extrema in BBoxRepLink.v (family_linked => family_ok; corollaries cell_bbox_exact_rep, cell_hull_exact_rep, cache_transparent_rep ... in Properties_C09L.v) for every repetition with count > 0; count 0 is refuted (zero_count_link_refuted = known finding repetition:zero-count). Only validated per run: cos/sin/is_multiple_of_pi_over_2 values, get_offsets/get_extrema lists and FlexPath::to_polygons output enter the model as data; double rounding (comparison on a 2^-20 grid; real quarter turns have cos(pi/2)=6e-17, covered by the never-under-reports theorem, not by the exactness theorem); the qh_POINTSmax split and RobustPath are not modelled. Trusted: Coq kernel, extraction, harness, driver.",
+        "level_note": "Assumed as Section hypothesis: qhull's contract (corners are input points, every input is a convex combination of the corners) on non-degenerate inputs — validated on every hull the library returns in each run (harness oracle), with an exact monotone-chain hull standing in for qhull in the model run. Premises of the hierarchy theorems: unique cell names, the C11 facts for every repetition (extrema are offsets, same box, origin is an offset), quarter flag => cos*sin = 0, and for reference repetitions that are not Explicit that the extrema cover the offsets - all of these are discharged from C11's model of get_offsets / get_extrema in BBoxRepLink.v (family_linked => family_ok; corollaries cell_bbox_exact_rep, cell_hull_exact_rep, cache_transparent_rep ... in Properties_C09L.v) for every repetition with count > 0; count 0 is refuted (zero_count_link_refuted = known finding repetition:zero-count). Only validated per run: cos/sin/is_multiple_of_pi_over_2 values, get_offsets/get_extrema lists and FlexPath::to_polygons output enter the model as data; double rounding (comparison on a 2^-20 grid; real quarter turns have cos(pi/2)=6e-17, covered by the never-under-reports theorem, not by the exactness theorem); the qh_POINTSmax split is not modelled; FlexPath / RobustPath outlines enter as data. Trusted: Coq kernel, extraction, harness, driver.",
         "technique": "Coq proof over an exact-rational statement-level model (support-function / half-plane cover argument, nested induction over the cell tree with a cache invariant) + differential run of the extracted model against the library + flattening oracle",
     },
     "prop_file": "Properties_C09",
@@ -13,17 +13,28 @@ CONFIG = {
         {"harness": "c09", "driver": "c09l", "extracted": ["c09l"], "extract_file": "Extract_C09L", "module": "checks.c09l"},
     ],
     "thorough_seeds": 3,
-    "rule": ("cases: the F9 and F10 witnesses first, then seeded hierarchies (3-6 cells, 2-4 levels, shared children; polygons, "
-             "labels, flexpaths; every repetition kind on elements and references; magnifications 2, 1/2, -1; reflections; "
-             "rotations k*90 deg, 45 deg, Pythagorean and 0.3 rad) and degenerate hierarchies (collinear ascending / descending / "
+    "rule": ("cases: the F9 and F10 witnesses and a RobustPath witness (two elements under the Explicit repetition (10,0), (0,10), (8,8), "
+             "whose last offset is extreme only diagonally, queried directly and through references at 45 deg and at atan(3/4) with "
+             "reflection and magnification 2) first, then seeded hierarchies (3-6 cells, 2-4 levels, shared children; polygons, "
+             "labels, flexpaths, robustpaths; every repetition kind on elements and references; magnifications 2, 1/2, -1; reflections; "
+             "rotations k*90 deg, 45 deg, Pythagorean and 0.3 rad), RobustPath hierarchies (family rp, after every 4th scenario: a leaf "
+             "whose content is 1-2 RobustPaths, sometimes beside a FlexPath / label / triangle, under 1-2 levels of rotated (45 / 135 / "
+             "-45 deg, Pythagorean, 0.3 rad) / reflected / magnified / repeated references) and degenerate hierarchies (collinear ascending / descending / "
              "horizontal / vertical / coincident points, single points, empty cells; float-exact placements), each with a fresh-cache "
              "script over every public entry point and shared-cache scripts in random query orders, plus direct calls of "
-             "gdstk::convex_hull on small point sets; results compared as text on a 2^-20 grid (llround, halves away from zero; "
+             "gdstk::convex_hull on small point sets; RobustPaths: straight sections through integer points, consecutive sections never "
+             "parallel, 1-2 elements, widths 1 / 2, offsets multiples of 1/2, outline checked finite, every repetition kind incl. "
+             "Explicit lists with a diagonal-only extreme offset and empty / single-entry Explicit, ExplicitX, ExplicitY lists; the "
+             "outlines RobustPath::to_polygons returns enter the case as polygons after the FlexPath outlines (list F, each with the "
+             "path's repetition printed as for every other element: parameters + get_offsets / get_extrema lists, so unit c09l "
+             "rebuilds them too), are queried one by one (P) and through every cell / reference entry point, and are part of the "
+             "flatten oracle (Cell::get_polygons with paths); a crash or hang inside a query script is recorded with its input "
+             "(kind hier-crash, oracle key c09-crash); results compared as text on a 2^-20 grid (llround, halves away from zero; "
              "hulls as the sorted corners of the hull of the grid points, corners within 8 grid units of their neighbours' chord dropped); a case is non-trivial when its script has at least one query on a "
              "cell with a reference or its point set has at least 4 points; distinct = distinct (kind, payload)"),
     "trusted": ["cos/sin of each rotation and is_multiple_of_pi_over_2 are evaluated by the harness (libm / the library) and enter the "
                 "model as data", "get_offsets / get_extrema lists enter the model as data and are checked per run to be exactly the lists C11's model computes for the same repetition (unit c09l, extracted linked_b)",
-                "FlexPath::to_polygons output enters the model as polygons",
+                "FlexPath::to_polygons and RobustPath::to_polygons output enters the model as polygons",
                 "qhull is replaced in the model run by an exact monotone-chain hull (hull_mc); its contract is checked on every "
                 "hull the library returns by the harness oracle"],
     "assumptions": ["model arithmetic is exact over Q; agreement with the double-precision implementation is checked after rounding "
